@@ -59,6 +59,13 @@ def alterations(rng, wire, header_len, thorough):
         m = bytearray(wire); v = int.from_bytes(m[8:10], "little") + d
         if 16 <= v <= n:
             m[8:10] = v.to_bytes(2, "little"); out.append((f"frag_len{d:+d}", bytes(m[:v])))
+    # a cleartext RESPONSE forged by an on-path party: attacker's stub, a copied security trailer header, k bytes of junk as the token
+    for k in list(range(0, 18)) + [header_len - 1, header_len, header_len + 1]:
+        for body in (b"ATTACKER-STUB-16", b"", b"evil"):
+            trailer = bytearray(wire[tr:tr + 8]); trailer[2] = 0
+            m = bytearray(wire[:24]) + body + (bytes(trailer) + bytes([0xA5]) * k if k or body == b"evil" else b"")
+            m[8:10] = len(m).to_bytes(2, "little"); m[10:12] = k.to_bytes(2, "little")
+            out.append((f"forged cleartext auth_len={k}", bytes(m)))
     for c in (16, 23, 24, 25, tr, tr + 7, tr + 8, n - 1):
         if 16 <= c < n:
             m = bytearray(wire[:c]); m[8:10] = c.to_bytes(2, "little"); out.append((f"truncated@{c}", bytes(m)))
